@@ -1,15 +1,19 @@
 """C20 — The command-line tool drives the same requests as the API."""
 import ast
 import contextlib
+import hashlib
 import io
 import json
 import logging
 import os
+import re
+import socket
 import sys
 import time
 
 from ..lib import lean, repo
 from ..sim import pristine
+from ..sim import bmc20 as stub
 from ..sim.bmc20 import Bmc20, Iface20
 from ..translate import cli as tcli
 
@@ -96,6 +100,7 @@ class Obs(object):
         self.created = None
         self.bmc = None
         self.py_error = False       # ended with an exception that is not one of pyipmi.errors (nor SystemExit)
+        self.failure = None         # ended with a failure class (pyipmi.errors.* / socket.timeout): classify() of it
 
     @property
     def requests(self):
@@ -109,6 +114,21 @@ class Obs(object):
 def _library_errors():
     import pyipmi.errors as E
     return tuple(c for c in vars(E).values() if isinstance(c, type) and issubclass(c, BaseException))
+
+
+def classify(e):
+    """an exception -> ('cc', code) | ('timeout',) | ('liberr', Class, repr, str) | ('raise', Class, text).
+    'liberr': any other class of pyipmi.errors, or the transport's time-out (socket.timeout)"""
+    from pyipmi.errors import CompletionCodeError, IpmiTimeoutError
+    if isinstance(e, CompletionCodeError):
+        return ('cc', e.cc)
+    if isinstance(e, IpmiTimeoutError):
+        return ('timeout',)
+    if isinstance(e, socket.timeout):
+        return ('liberr', 'socket.timeout', repr(e), str(e))
+    if isinstance(e, _library_errors()):
+        return ('liberr', type(e).__name__, repr(e), str(e))
+    return ('raise', type(e).__name__, str(e)[:200])
 
 
 def _known_ifaces():
@@ -190,6 +210,8 @@ def run_cli(argv, profile='full', faults=None):
             except BaseException as e:  # noqa
                 o.exit = ('raise', type(e).__name__, str(e)[:200])
                 o.py_error = not isinstance(e, _library_errors())
+                c = classify(e)
+                o.failure = c if c[0] != 'raise' else None
             o.stdout = out.getvalue()
     finally:
         pyipmi.interfaces.create_interface = real_ci
@@ -199,9 +221,9 @@ def run_cli(argv, profile='full', faults=None):
 
 
 def run_api(fn, target=0x20, routing=None, profile='full', faults=None):
-    """the direct API call on a fresh identical BMC -> (outcome, requests, targets)"""
+    """the direct API call on a fresh identical BMC -> (outcome, requests, targets); a fault of the session
+    tear-down (index -2) is returned as outcome of an otherwise successful call: ('close',) + its class"""
     import pyipmi
-    from pyipmi.errors import CompletionCodeError, IpmiTimeoutError
     bmc = Bmc20(profile, faults)
     iface = Iface20(bmc, 'api')
     with _quiet():
@@ -213,17 +235,13 @@ def run_api(fn, target=0x20, routing=None, profile='full', faults=None):
             ipmi.open()
             fn(ipmi)
             out = ('ok',)
-        except CompletionCodeError as e:
-            out = ('cc', e.cc)
-        except IpmiTimeoutError:
-            out = ('timeout',)
         except BaseException as e:  # noqa
-            out = ('raise', type(e).__name__, str(e)[:200])
+            out = classify(e)
         finally:
             try:
                 ipmi.close()
-            except Exception:  # noqa
-                pass
+            except Exception as e:  # noqa
+                out = ('close', out, classify(e))
     return out, list(bmc.requests), list(iface.targets)
 
 
@@ -256,6 +274,9 @@ def lit(n, kind):
 
 KINDS0 = ['dec', 'hex', 'HEX', 'oct', 'bin', 'us', 'hexus', 'ws', 'plus']
 KINDS10 = ['dec', 'us', 'ws', 'plus', 'lead0']
+KINDS_BOTH = ['dec', 'us', 'ws', 'plus']
+KINDS_ARG = KINDS0 + ['lead0']          # what a numeric handler argument is written as
+PROPERTY_LITERAL = re.compile(r'^(0|[1-9][0-9]*|0[xX][0-9a-fA-F]+)$')     # "numeric arguments in decimal/hex"
 BAD_LITS = ['', 'abc', '0x', '1__0', '12a', '0b2', '_1', '1_', '0o8', '- 1', '1 2', '0x1g']
 
 
@@ -326,55 +347,128 @@ def _hpm_file():
     return p if os.path.exists(p) else None
 
 
-# name -> (list of arg shapes, api(nums) -> fn(ipmi)); a shape is a list of ('n0'|'n10', value) | ('w', word)
+def _le(v, n):
+    return bytes((v >> (8 * i)) & 0xff for i in range(n))
+
+
+def _zero_sum(bs):
+    return (256 - sum(bs) % 256) % 256
+
+
+def hpm_image_bytes():
+    """A small HPM.1 upgrade image (HPM.1 R1.0 ch. 4: image header, upgrade action records, MD5) for the stub
+    BMC: its device / manufacturer / product id, component 0, a prepare action and one upload action of 50
+    bytes (three firmware blocks)."""
+    hdr = (b'PICMGFWU' + bytes([0x00, 0x20]) + _le(0x003aa2, 3) + _le(0x1234, 2) + _le(0x5f000000, 4) +
+           bytes([0x00, 0x01, 0x00, 0x00, 0x00]) + bytes([0x01, 0x00]) + bytes([0x01, 0x10, 0, 0, 0, 0]) + _le(0, 2))
+    hdr += bytes([_zero_sum(hdr)])
+    prep = bytes([0x01, 0x01])
+    prep += bytes([_zero_sum(prep)])
+    fw = bytes((7 * i + 3) & 0xff for i in range(50))
+    up = bytes([0x02, 0x01])
+    up += bytes([_zero_sum(up)])
+    up += bytes([0x01, 0x10, 0, 0, 0, 0]) + b'APP20'.ljust(21, b'\x00') + _le(len(fw), 4) + fw
+    body = hdr + prep + up
+    return body + hashlib.md5(body).digest()
+
+
+def _hpm_small():
+    """path of the small image (written on demand; the replay writes it again)"""
+    d = os.path.join(repo.VERIF, '.work', 'c20')
+    p = os.path.join(d, 'small.hpm')
+    data = hpm_image_bytes()
+    try:
+        with open(p, 'rb') as f:
+            if f.read() == data:
+                return p
+    except OSError:
+        pass
+    os.makedirs(d, exist_ok=True)
+    with open(p + '.%d' % os.getpid(), 'wb') as f:
+        f.write(data)
+    os.replace(p + '.%d' % os.getpid(), p)
+    return p
+
+
+# name -> (list of arg shapes, api(nums) -> fn(ipmi)); a shape is a list of ('n', value) | ('w', word) |
+# ('f', value: a float argument, always written in decimal).  Every number is written as ANY literal; which of
+# them the entry accepts is the model's prediction (int(s) / int(s, 0) read off the handler), and the property
+# demands decimal and hex.
 def entry_specs():
     f = _hpm_file()
+    small = _hpm_small()
     specs = {
         'bmc info': ([[]], lambda v: lambda i: i.get_device_id()),
         'bmc reset cold': ([[]], lambda v: lambda i: i.cold_reset()),
         'bmc reset warm': ([[]], lambda v: lambda i: i.warm_reset()),
         'sel list': ([[]], lambda v: lambda i: list(i.sel_entries())),
         'sel clear': ([[]], lambda v: lambda i: i.clear_sel()),
-        'sensor rearm': ([[('n0', 0x30)], [('n0', 0x31)], [('n0', 7)]], lambda v: lambda i: i.rearm_sensor_events(v[0])),
+        'sensor rearm': ([[('n', 0x30)], [('n', 0x31)], [('n', 7)]], lambda v: lambda i: i.rearm_sensor_events(v[0])),
         'sdr list': ([[]], lambda v: _sdr_list),
-        'sdr raw': ([[('n0', 1)], [('n0', 2)], [('n0', 77)]], lambda v: lambda i: i.get_device_sdr(v[0])),
-        'sdr show': ([[('n0', 1)], [('n0', 2)], [('n0', 77)]], lambda v: lambda i: _sdr_show(i, v[0])),
+        'sdr raw': ([[('n', 1)], [('n', 2)], [('n', 77)], [('n', 5)], [('n', 0x20)]], lambda v: lambda i: i.get_device_sdr(v[0])),
+        'sdr show': ([[('n', x)] for x in (1, 2, 77, 3, 4, 6, 9, 11, 12, 0x20, 0x21, 0x22, 0x23, 0x25)],
+                     lambda v: lambda i: _sdr_show(i, v[0])),
         'sdr showall': ([[]], lambda v: _sdr_showall),
-        'fru print': ([[], [('n10', 0)], [('n10', 0), ('w', 'all')], [('n10', 1)]],
+        'fru print': ([[], [('n', 0)], [('n', 0), ('w', 'all')], [('n', 1)]],
                       lambda v: lambda i: i.get_fru_inventory(v[0] if v else 0)),
         'picmg frucontrol cr': ([[]], lambda v: lambda i: i.fru_control_cold_reset(0)),
         'picmg power get': ([[]], lambda v: lambda i: i.get_power_level(0, 0)),
-        'picmg portstate get': ([[('n10', 1), ('n10', 0)], [('n10', 2), ('n10', 0)], [('n10', 5), ('n10', 1)]],
+        'picmg portstate get': ([[('n', 1), ('n', 0)], [('n', 2), ('n', 0)], [('n', 5), ('n', 1)], [('n', 3), ('n', 0)]],
                                 lambda v: lambda i: i.get_port_state(v[0], v[1])),
         'picmg portstate getall': ([[]], lambda v: _portstate_all),
-        'picmg channel status': ([[('n10', 1)], [('n10', 3)]], lambda v: lambda i: i.get_power_channel_status(v[0])),
+        'picmg channel status': ([[('n', 1)], [('n', 3)]], lambda v: lambda i: i.get_power_channel_status(v[0])),
         'picmg send heartbeat': ([[]], lambda v: lambda i: i.send_pm_heartbeat()),
-        'picmg channel power': ([[('n10', 2)], [('n10', 2), ('n10', 1), ('n10', 3)]], None),
+        'picmg channel power': ([[('n', 2)], [('n', 2), ('n', 1), ('f', 3)]], None),
         'hpm capabilities': ([[]], lambda v: _hpm_caps),
         'chassis status': ([[]], lambda v: lambda i: i.get_chassis_status()),
     }
-    if f:
-        specs['hpm check'] = ([[('w', f)]], lambda v: lambda i: i.open_upgrade_image(f))
-        specs['hpm install'] = ([[('w', f), ('n10', 0)]], lambda v: lambda i: i.install_component_from_file(f, v[0]))
+    specs['hpm check'] = ([[('w', small)]] + ([[('w', f)]] if f else []),
+                          lambda v: lambda i: i.open_upgrade_image(small))
+    specs['hpm install'] = ([[('w', small), ('n', 0)], [('w', small), ('n', 1)]],
+                            lambda v: lambda i: i.install_component_from_file(small, v[0]))
     for w in ('off', 'on', 'cycle', 'reset', 'diag', 'soft'):
         specs['chassis power ' + w] = ([[]], (lambda m: lambda v: lambda i: getattr(i, m)())(_chassis_method(w)))
     return specs
 
 
 def render_shape(shape, rng, force_kind=None):
-    """-> (words, values, all literals valid for the conversion the entry uses)"""
-    words, vals, ok = [], [], True
+    """-> (words, values of the numeric words)"""
+    words, vals = [], []
     for kind, v in shape:
         if kind == 'w':
             words.append(v)
+        elif kind == 'f':
+            words.append(str(v))
         else:
-            kinds = KINDS0 if kind == 'n0' else KINDS10
-            k = force_kind or rng.choice(kinds)
-            text, ok0, ok10 = lit(v, k)
+            text, _, _ = lit(v, force_kind or rng.choice(KINDS_ARG))
             words.append(text)
             vals.append(v)
-            ok = ok and (ok0 if kind == 'n0' else ok10)
-    return words, vals, ok
+    return words, vals
+
+
+_ARGCONVS = {}
+
+
+def arg_convs(ctx, idx):
+    """driver: the int() conversions of entry idx -> {argument index: base (0 | 10)}"""
+    if idx not in _ARGCONVS:
+        r = ctx.driver('drv_c20').ask('argconvs %d' % idx)
+        _ARGCONVS[idx] = {} if r == '-' else dict((int(a), int(b)) for a, b in (t.split(':') for t in r.split(' ')))
+    return _ARGCONVS[idx]
+
+
+def literal_verdict(ctx, idx, words):
+    """(model: every int() of the entry accepts its word, rejected words that the property says are numbers)"""
+    drv = ctx.driver('drv_c20')
+    model_ok, demanded = True, []
+    for k, base in sorted(arg_convs(ctx, idx).items()):
+        if k >= len(words):
+            continue
+        if drv.ask('int%d %s' % (base, enc(words[k]))) == 'ValueError':
+            model_ok = False
+            if PROPERTY_LITERAL.match(words[k]):
+                demanded.append(words[k])
+    return model_ok, demanded
 
 
 # ------------------------------------------------------------------------------------- judging
@@ -386,26 +480,68 @@ def _exit_class(o):
     return o.exit[0] if o.exit[0] != 'exit' else 'exit%d' % o.exit[1]
 
 
-def model_exit(ctx, api_out):
-    """driver: what main does with this outcome of the handler -> None | (status, message)"""
-    drv = ctx.driver('drv_c20')
-    if api_out[0] == 'cc':
-        r = drv.ask('exit cc %d' % api_out[1])
-    elif api_out[0] == 'timeout':
-        r = drv.ask('exit timeout')
-    elif api_out[0] == 'ok':
-        r = drv.ask('exit ok')
-    else:
-        r = drv.ask('exit py %s' % api_out[1])
-    if r == 'none':
-        return None
+FAILURE_KINDS = ('cc', 'timeout', 'liberr')
+# every class of pyipmi/errors.py except the two main() was written for, and the transport's time-out
+EXC_FAULTS = ['RetryError', 'socket.timeout', 'HpmError', 'IpmiConnectionError', 'IpmiLongPasswordError', 'DecodingError',
+              'EncodingError', 'NotSupportedError', 'DescriptionError', 'DataNotFound']
+
+
+def exc_token(c):
+    """classify() result (or None / ('ok',)) -> the driver's <exc> word"""
+    if c is None or c[0] == 'ok':
+        return '-'
+    if c[0] == 'cc':
+        return 'cc:%d' % c[1]
+    if c[0] == 'timeout':
+        return 'lib:IpmiTimeoutError:%s:%s' % (enc('IpmiTimeoutError()'), enc(''))
+    if c[0] == 'liberr':
+        if c[1] == 'socket.timeout':
+            return 'sock:%s:%s' % (enc(c[2]), enc(c[3]))
+        return 'lib:%s:%s:%s' % (c[1], enc(c[2]), enc(c[3]))
+    if c[1] == 'KeyboardInterrupt':
+        return 'kbd'
+    return 'py:%s' % c[1]
+
+
+def model_end(ctx, body, close=None):
+    """driver: how main ends when ipmi.open()/the handler raised `body` and ipmi.close() raised `close`
+    -> ('returns',) | ('exits', status, message) | ('raises', Name, printed message | None)"""
+    r = ctx.driver('drv_c20').ask('mainend %s %s' % (exc_token(body), exc_token(close)))
     t = r.split(' ')
-    return int(t[1]), dec(t[2])
+    if t[0] == 'returns':
+        return ('returns',)
+    if t[0] == 'exits':
+        return ('exits', int(t[1]), dec(t[2]))
+    if t[0] == 'raises':
+        return ('raises', t[1], None if t[2] == '~' else dec(t[2]))
+    raise lean.LeanError('drv_c20', 'mainend: ' + r)
 
 
-def judge_entry_run(ctx, name, idx, argv, words_ok, api_fn, profile, faults, unresolved_names, kind):
-    """One run of a table entry: tie (model of main + exit clauses) and property (same requests as the
-    API, errors end the tool).  Returns the Obs."""
+def observed_end(o, like):
+    """the run's end in the vocabulary of model_end (the message is compared only where the model names one)"""
+    last = o.stdout.rstrip('\n').split('\n')[-1] if o.stdout else ''
+    if o.exit[0] == 'return':
+        return ('returns',)
+    if o.exit[0] == 'exit':
+        return ('exits', o.exit[1], last if (like[0] == 'exits' and like[2]) else (like[2] if like[0] == 'exits' else ''))
+    return ('raises', o.exit[1], last if (like[0] == 'raises' and like[2] is not None) else
+            (like[2] if like[0] == 'raises' else None))
+
+
+def _by_design(name, request, fault):
+    """HPM.1: the IPM controller may restart while it activates the new firmware, so `hpm install` takes a
+    time-out of Activate Firmware for "activation under way" (documented exemption, see ASSUMPTIONS)"""
+    return name == 'hpm install' and fault[0] == 'timeout' and request[1] == 0x2c and request[2].startswith('35')
+
+
+def _last_line(o):
+    return o.stdout.rstrip('\n').split('\n')[-1] if o.stdout else ''
+
+
+def judge_entry_run(ctx, name, idx, argv, api_fn, profile, faults, unresolved_names, kind):
+    """One run of a table entry: tie (model of main, of the handler's int() conversions and of the end of
+    main) and property (no Python error, same requests as the API, failures end the tool with a message and a
+    non-zero status).  Returns the Obs."""
     drv = ctx.driver('drv_c20')
     case = {'kind': kind, 'argv': argv, 'profile': profile, 'faults': sorted((k, list(v)) for k, v in (faults or {}).items()),
             'entry': name}
@@ -418,14 +554,30 @@ def judge_entry_run(ctx, name, idx, argv, words_ok, api_fn, profile, faults, unr
     if not m.startswith('launch %d ' % idx):
         ctx.disagree('main/launch', case, m, json.dumps(o.launch))
         return o
-    if o.launch is None or o.launch['entry'] != idx:
+    open_fault = -1 in (faults or {})       # the session set-up fails: the handler is never started
+    if (o.launch is None and not open_fault) or (o.launch is not None and o.launch['entry'] != idx):
         # the property: the entry's own words reach the entry
         ctx.violate('C20:lookup:%s' % name, 'the words of entry %r do not reach its handler' % name, case,
                     expected='handler %d' % idx, observed=json.dumps(o.launch) if o.launch else str(o.exit))
         return o
-    if not words_ok:
-        # a literal the entry's own conversion rejects: Python error by construction
-        if api_fn is not None:
+    # ---- numeric arguments: the model says which literals the entry's int() conversions accept; the property
+    #      says decimal and hex are numbers
+    if name in unresolved_names or o.launch is None:
+        model_ok, demanded = True, []
+    else:
+        model_ok, demanded = literal_verdict(ctx, idx, o.launch['args'])
+    if not model_ok:
+        raised = o.exit[0] == 'raise' and o.exit[1] == 'ValueError'
+        if o.requests or not (raised or o.exit == ('return',)):
+            # (`sdr raw` / `sdr show` catch the ValueError themselves and print an empty line)
+            ctx.disagree('literal', case, 'ValueError before any request', str((o.exit, o.requests[:3])))
+        elif demanded and raised:
+            ctx.violate('C20:python-error:%s:ValueError' % name,
+                        'entry %r rejects the numeric argument(s) %r - a number written in decimal / hex - with a '
+                        'Python error (%s)' % (name, demanded, o.exit[2]), case,
+                        expected='the argument is read as the number it denotes (as the entries using int(x, 0) do)',
+                        observed={'exit': o.exit, 'requests': o.requests[:3]})
+        else:
             ctx.count('obs:literal-rejected:%s:%s' % (name, o.exit[1] if o.exit[0] == 'raise' else _exit_class(o)))
         return o
     # ---- property clause 1: against a conforming BMC (no injected fault) the entry completes without a Python error
@@ -438,9 +590,14 @@ def judge_entry_run(ctx, name, idx, argv, words_ok, api_fn, profile, faults, unr
                     observed={'exit': o.exit, 'requests': o.requests[:6], 'stdout_tail': o.stdout[-120:]})
         return o
     if api_fn is None:
+        if o.failure is not None:
+            _report_escape(ctx, name, case, o, None, None)
         return o
-    target = o.launch['target']
+    target = o.launch['target'] if o.launch is not None else 0x20
     a_out, a_reqs, a_tgts = run_api(api_fn, target if target is not None else 0x20, None, profile, faults)
+    a_close = None
+    if a_out[0] == 'close':
+        a_out, a_close = a_out[1], a_out[2]
     # ---- unresolved table entries (property clause 1)
     if o.exit[0] == 'raise' and o.exit[1] in PY_ERR_OF_RESOLUTION and name in unresolved_names:
         return o        # reported by _table_facts with its own signature
@@ -461,24 +618,22 @@ def judge_entry_run(ctx, name, idx, argv, words_ok, api_fn, profile, faults, unr
                     observed={'requests': o.requests[:12], 'targets': o.targets[:3], 'exit': o.exit})
         return o
     # ---- outcome
-    exp = model_exit(ctx, a_out)
-    fault_hit = [k for k in (faults or {}) if k < len(o.requests)]
-    if a_out[0] in ('cc', 'timeout'):
-        want_status, want_msg = exp if exp else (None, None)
-        got_status = o.exit[1] if o.exit[0] == 'exit' else None
-        last = o.stdout.rstrip('\n').split('\n')[-1] if o.stdout else ''
+    fault_hit = [k for k in (faults or {}) if 0 <= k < len(o.requests)]
+    failed = a_out[0] in FAILURE_KINDS or (a_close is not None and a_close[0] in FAILURE_KINDS)
+    if failed:
+        last = _last_line(o)
         if not (o.exit[0] == 'exit' and o.exit[1] != 0 and last):
             # property, judged without the model
-            ctx.violate('C20:error-exit:%s' % name,
-                        '%r: the BMC answered %s but the tool ended with %s and message %r' % (
-                            name, a_out, o.exit, last), case,
-                        expected='non-zero exit status and a message', observed={'exit': o.exit, 'last_line': last})
-        elif exp is None or got_status != want_status or last != want_msg:
-            # model of the except clauses vs code
-            ctx.disagree('exit', case, '%s %r' % (want_status, want_msg), '%s %r' % (got_status, last))
-        ctx.count('outcome:%s' % a_out[0])
+            _report_escape(ctx, name, case, o, a_out, a_close)
+        # model of the except clauses and of the try / finally vs code
+        want = model_end(ctx, a_out if a_out[0] in FAILURE_KINDS else None, a_close)
+        got = observed_end(o, want)
+        if want != got:
+            ctx.disagree('exit', case, repr(want), repr(got))
+        ctx.count('outcome:%s%s' % (a_out[0], ':close' if a_close is not None else ''))
     elif a_out[0] == 'ok':
-        hard = [k for k in fault_hit if faults[k][0] == 'timeout' or faults[k][1] in HARD_CC]
+        hard = [k for k in fault_hit if (faults[k][0] != 'cc' or faults[k][1] in HARD_CC)
+                and not _by_design(name, o.requests[k], faults[k])]
         inline = name == 'sdr list' and any('ERR: CC=0x%02x' % faults[k][1] in o.stdout for k in hard if faults[k][0] == 'cc')
         if hard and not inline:
             # the library call itself swallowed a BMC error: the tool ends with status 0 and no message
@@ -498,6 +653,32 @@ def judge_entry_run(ctx, name, idx, argv, words_ok, api_fn, profile, faults, unr
         if not (o.exit[0] == 'raise' and o.exit[1] == a_out[1]):
             ctx.disagree('exit', case, 'raise %s' % a_out[1], str(o.exit))
     return o
+
+
+def _report_escape(ctx, name, case, o, a_out, a_close):
+    """a failure (BMC error code / time-out / any class of pyipmi.errors) did not end the tool with a message
+    and a non-zero status"""
+    last = _last_line(o)
+    obs = {'exit': o.exit, 'last_line': last}
+    if a_close is not None and o.exit[0] == 'raise':
+        ctx.violate('C20:error-exit:main:close-error',
+                    '%r: ipmi.close() failed (%s) - %s: main() ends with the exception %s%s' % (
+                        name, a_close[1] if a_close[0] == 'liberr' else a_close[0],
+                        'after the command itself had failed with %s' % (a_out[:2],) if a_out and a_out[0] in FAILURE_KINDS
+                        else 'the command itself had succeeded', o.exit[1],
+                        ' (after printing %r: the reported failure is replaced)' % last if last and a_out
+                        and a_out[0] in FAILURE_KINDS else ''), case,
+                    expected='non-zero exit status and a message', observed=obs)
+    elif (a_out is None or a_out[0] == 'liberr') and o.exit[0] == 'raise':
+        ctx.violate('C20:error-exit:main:unmapped-error',
+                    '%r: %s (%s) leaves main() as an exception: no message, no exit status of the tool\'s own' % (
+                        name, o.exit[1], o.exit[2][:80]), case,
+                    expected='non-zero exit status and a message', observed=obs)
+    else:
+        ctx.violate('C20:error-exit:%s' % name,
+                    '%r: the BMC answered %s but the tool ended with %s and message %r' % (
+                        name, a_out, o.exit, last), case,
+                    expected='non-zero exit status and a message', observed=obs)
 
 
 # --------------------------------------------------------------------------------- table facts
@@ -596,7 +777,100 @@ def _table_facts(ctx, snap):
     return set(u[2] for u in py_un)
 
 
+# ------------------------------------------------------------ what the printing handlers meet
+def _sign(x):
+    return 'neg' if x < 0 else 'zero' if x == 0 else 'pos'
+
+
+def record_facts(rec, readings):
+    """One SDR of the stub, read per IPMI v2.0 table 43-1 (NOT with the library): record id, type, and for a full
+    sensor record the linearisation code and the sign of x = M*raw + B (K1 = K2 = 0 in the stub) of the reading
+    and of the six threshold bytes in the order `sdr show` prints them."""
+    rid, rtype = rec[0] | rec[1] << 8, rec[3]
+    d = {'id': rid, 'type': rtype, 'lin': None, 'reading': None, 'thresholds': []}
+    if rtype != 0x01:
+        return d
+    b = rec[5:]
+    number = b[2]
+    fmt = b[15] >> 6
+    d['lin'] = b[18] & 0x7f
+    m = b[19] | (b[20] & 0xc0) << 2
+    m = m - 1024 if m & 0x200 else m
+    bb = b[21] | (b[22] & 0xc0) << 2
+    bb = bb - 1024 if bb & 0x200 else bb
+
+    def x_of(raw):
+        if fmt == 1 and raw & 0x80:
+            raw = -((raw & 0x7f) ^ 0x7f)
+        elif fmt == 2 and raw & 0x80:
+            raw = raw - 256
+        return m * raw + bb
+    rd = readings.get(number)
+    if rd is not None and rd[0] == 0 and not rd[2] & 0x20:
+        d['reading'] = _sign(x_of(rd[1]))
+    unr, ucr, unc, lnr, lcr, lnc = b[31:37]
+    d['thresholds'] = [_sign(x_of(t)) for t in (unr, ucr, unc, lnc, lcr, lnr)]
+    return d
+
+
+def predict_python_error(ctx, name, args, profile):
+    """the Lean model of the printing handlers (with the facts the translator read off today's source): the
+    Python error that ends entry `name` on the stub profile, or None.  Only for the entries it models."""
+    drv = ctx.driver('drv_c20')
+    bmc = Bmc20(profile)
+    if profile == 'minimal':
+        return None
+
+    def ask(q):
+        r = drv.ask(q)
+        return None if r == 'none' else r
+    if name == 'picmg portstate get':
+        ch, intf = args
+        return ask('linkstate 0') if (bmc.linkless and (intf, ch) == (0, 3)) else None
+    if name == 'picmg portstate getall':
+        return ask('linkstate 0') if bmc.linkless else None
+    if name not in ('sdr list', 'sdr show', 'sdr showall'):
+        return None
+    recs = [record_facts(r, bmc.readings) for r in bmc.sdrs]
+    if name == 'sdr show':
+        recs = [r for r in recs if r['id'] == args[0]]
+    cmd = enc(name)
+    for r in recs:
+        if name != 'sdr list':
+            e = ask('sdrshow %d' % r['type'])
+            if e:
+                return e
+        if r['lin'] is None:
+            continue
+        cells = ([r['reading']] if r['reading'] else []) + (r['thresholds'] if name != 'sdr list' else [])
+        for sg in cells:
+            e = ask('cell %s %d %s' % (cmd, r['lin'], sg))
+            if e:
+                return e
+    return None
+
+
+def tie_python_error(ctx, name, vals, argv, profile, o):
+    """tie: the model's prediction vs the run (fault-free runs of the entries the handler model covers)"""
+    if name not in ('picmg portstate get', 'picmg portstate getall', 'sdr list', 'sdr show', 'sdr showall'):
+        return
+    if o.launch is None or (o.exit[0] == 'raise' and o.exit[1] == 'ValueError' and not o.requests):
+        return
+    want = predict_python_error(ctx, name, vals, profile)
+    got = o.exit[1] if (o.exit[0] == 'raise' and o.py_error) else None
+    ctx.count('handler-model:%s' % (want or 'completes'))
+    if want != got:
+        ctx.disagree('handler', {'kind': 'entry', 'argv': argv, 'profile': profile, 'entry': name, 'faults': []},
+                     str(want), str(got))
+
+
 # ------------------------------------------------------------------------------------- entries
+def _profiles_of(name):
+    if name.startswith('sdr'):
+        return ('full', 'minimal', 'plain', 'sdrtypes', 'nonlinear')
+    return ('full', 'minimal', 'plain')
+
+
 def _entries(ctx, snap, unresolved_names):
     rng = ctx.rng('entries')
     specs = entry_specs()
@@ -612,15 +886,20 @@ def _entries(ctx, snap, unresolved_names):
             ctx.case(('nospec', name))
             continue
         shapes, api = specs[name]
+        nmax = max(len(sh) for sh in shapes)
         for shape in shapes:
-            kinds = [None] * (6 if thorough else 2) + (['dec', 'hex'] if any(k != 'w' for k, _ in shape) else [])
+            numeric = any(k == 'n' for k, _ in shape)
+            # a shape that stops before the handler's last argument: its conversions may not be reached at all
+            short = name == 'picmg channel power' and len(shape) < nmax
+            kinds = ['dec'] if short else [None] * (6 if thorough else 2) + (['dec', 'hex', 'HEX'] if numeric else [])
             for fk in kinds:
-                words, vals, ok = render_shape(shape, rng, fk)
+                words, vals = render_shape(shape, rng, fk)
                 for extra in ([], ['extra']) if not any(shapes) else ([],):
                     argv = name.split(' ') + words + extra
                     fn = api(vals) if api else None
-                    for profile in ('full', 'minimal'):
-                        o = judge_entry_run(ctx, name, idx, argv, ok, fn, profile, None, unresolved_names, 'entry')
+                    for profile in _profiles_of(name):
+                        o = judge_entry_run(ctx, name, idx, argv, fn, profile, None, unresolved_names, 'entry')
+                        tie_python_error(ctx, name, vals, argv, profile, o)
                     if fk == 'dec' or (fk is None and not shape and not extra):
                         _faults(ctx, name, idx, argv, fn, unresolved_names, rng)
         # picmg channel power has no API oracle of its own (see fixes/C20-3.md): shape of the request only
@@ -641,17 +920,35 @@ def _entries(ctx, snap, unresolved_names):
 
 
 def _faults(ctx, name, idx, argv, fn, unresolved_names, rng):
-    if fn is None or name in unresolved_names:
+    """the run again with one BMC error code / time-out / library exception at a request, at the session set-up
+    (index -1) or at the session tear-down (index -2, alone and after a failure of the command itself)"""
+    if name in unresolved_names:
         return
-    base = run_cli(argv)
+    profile = 'full' if name.startswith('hpm') else 'plain'
+    base = run_cli(argv, profile)
     n = len(base.requests)
-    if n == 0:
-        return
+
+    def go(faults):
+        judge_entry_run(ctx, name, idx, argv, fn, profile, faults, unresolved_names, 'fault')
+        for f in faults.values():
+            ctx.count('fault:%s' % (f[0] if f[0] != 'exc' else f[1]))
     ks = list(range(n)) if n <= 10 else sorted(set([0, 1, n - 1, n - 2] + [rng.randrange(n) for _ in range(6)]))
     for k in ks:
         for f in (('cc', 0xc1), ('cc', rng.choice(HARD_CC)), ('timeout',)):
-            judge_entry_run(ctx, name, idx, argv, True, fn, 'full', {k: f}, unresolved_names, 'fault')
-            ctx.count('fault:%s' % f[0])
+            go({k: f})
+    for cls in EXC_FAULTS:
+        for k in sorted(set([0, rng.randrange(n)])) if n else []:
+            go({k: ('exc', cls)})
+    for f in (('cc', 0x81), ('timeout',), ('exc', 'RetryError'), ('exc', 'socket.timeout'), ('exc', 'NotSupportedError'),
+              ('exc', 'IpmiConnectionError'), ('exc', 'IpmiLongPasswordError')):
+        go({-1: f})
+        ctx.count('fault:at-session-setup')
+    for f in (('cc', 0xc1), ('timeout',), ('exc', 'RetryError'), ('exc', 'socket.timeout')):
+        go({-2: f})
+        if n:
+            go({0: ('cc', 0xc1), -2: f})
+            go({n - 1: ('exc', 'RetryError'), -2: f})
+        ctx.count('fault:at-session-teardown')
 
 
 # ------------------------------------------------------------------------------------- options
@@ -701,7 +998,7 @@ def gen_iface_opts(rng, iface):
     return ','.join(parts), want
 
 
-def gen_options(rng, known):
+def gen_options(rng, known, hex_b=False):
     """-> (argv words, oracle dict of what must be in effect)"""
     n = rng.choice([0, 1, 2, 3, 4, 6, 9])
     words, eff = [], {'target': 0x20, 'routing': None, 'host': None, 'port': 623, 'user': '', 'password': '',
@@ -722,7 +1019,11 @@ def gen_options(rng, known):
             eff['target'] = v
         elif o == 'b':
             v = rng.randrange(0, 16)
-            a, _, ok10 = lit(v, rng.choice(KINDS10))
+            # literals that int(a) and int(a, 0) both read (the tree decides which one -b uses), and hex
+            kind = rng.choice(KINDS_BOTH + ['hex', 'HEX']) if hex_b else rng.choice(KINDS_BOTH)
+            a, _, ok10 = lit(v, kind)
+            if kind in ('hex', 'HEX'):
+                eff.setdefault('hex_opts', []).append('b')
             eff['routing'] = [(0x20, v, 0)]
             eff['judge_routing'] = False     # -b is not named by the property; tie only
         elif o == 'r':
@@ -841,7 +1142,7 @@ def _options(ctx):
     n = 400 if ctx.tier == 'quick' else 6000
     tails = [['bmc', 'info'], ['raw', '6', '1'], ['chassis', 'status'], ['--', 'bmc', 'info']]
     for it in range(n):
-        words, eff = gen_options(rng, known)
+        words, eff = gen_options(rng, known, hex_b=True)
         tail = rng.choice(tails)
         argv = words + tail
         case = {'kind': 'options', 'argv': argv}
@@ -857,6 +1158,13 @@ def _options(ctx):
             code = ('exit %d' % o.exit[1]) if o.exit[0] == 'exit' else ('raise %s' % o.exit[1]) if o.exit[0] == 'raise' else 'return'
             if line != code or o.launch is not None:
                 ctx.disagree('main', case, line, code)
+            elif line == 'raise ValueError' and eff.get('hex_opts'):
+                # the model (conversions read off today's main) rejects a hex literal: decimal/hex are numbers
+                for x in sorted(set(eff['hex_opts'])):
+                    ctx.violate('C20:python-error:option -%s:ValueError' % x,
+                                'option -%s rejects its value written in hex with a Python error (ValueError)' % x, case,
+                                expected='the value is read as the number it denotes (as -t and -p do)', observed=code)
+                continue
             # the generator only produces valid option vectors: not being launched is itself wrong
             ctx.violate('C20:option:not-launched', 'a valid option vector does not reach the handler', case,
                         expected='handler started', observed=code)
@@ -1465,6 +1773,51 @@ def _safe_snapshot(ctx):
                 'reduced': True}
 
 
+def _probe(ctx):
+    """the executable hypotheses of the Props theorems, evaluated by the driver on today's source"""
+    line = ctx.driver('drv_c20').ask('probe')
+    d = dict(t.split('=', 1) for t in line.split(' '))
+    d['catch'] = dict((dec(a), b) for a, b in (e.split(':') for e in d['catch'].split(';'))) if d['catch'] != '-' else {}
+    ctx.extra['source_variant'] = d
+    holds = {
+        'all_errors_exit_nonzero / main_reports_every_failure: exitsCover': d['escaping'] == '-',
+        'main_reports_every_failure: closeInside': d['closeInside'] == '1',
+        'numeric_arguments_accept_hex: base10Args = []': d['int10'] == '-' and d['optint10'] == '-',
+        'portstate_no_python_error: linkNoneGuard': d['link'] == '1',
+        'sdr_show_no_python_error: idStringGuard, entityGuard': d['idstr'] == '1' and d['entity'] == '1',
+        'sensor_values_no_python_error: catchesArithmetic': bool(d['catch']) and all(
+            set(v.split('+')) & {'ArithmeticError', 'Exception', 'BaseException'} or
+            (set(v.split('+')) >= {'ValueError', 'ZeroDivisionError'}) for v in d['catch'].values()),
+    }
+    ctx.extra['theorem_hypotheses_on_this_source'] = holds
+    for k, v in holds.items():
+        ctx.count('hypothesis:%s:%s' % (k.split(':')[0], 'holds' if v else 'FAILS'))
+    return d
+
+
+def _family(sig):
+    """signatures that are the same kind of defect seen through different entries"""
+    t = sig.split(':')
+    if sig.startswith('C20:python-error:') and len(t) >= 4:
+        what = t[2].split(' ')[0]
+        return 'python-error:%s:%s' % ('option' if what == 'option' else 'picmg' if what == 'picmg' else
+                                       'sdr' if what == 'sdr' else 'other', t[3])
+    return sig
+
+
+def _one_of_each_first(ctx):
+    """the runner prints the first eight distinct signatures: put one violation of every kind of defect first"""
+    seen, first, rest = set(), [], []
+    for v in ctx.violations:
+        f = _family(v['signature'])
+        if f in seen:
+            rest.append(v)
+        else:
+            seen.add(f)
+            first.append(v)
+    ctx.violations[:] = first + rest
+
+
 def run(ctx):
     _pristine(ctx)           # forked now: this process has not run main() yet
     snap = _safe_snapshot(ctx)
@@ -1477,6 +1830,7 @@ def run(ctx):
     ctx.violate = violate
     try:
         unresolved_names = _table_facts(ctx, snap)
+        _probe(ctx)
         _ints(ctx)
         _lookup(ctx, snap)
         _ifopts(ctx)
@@ -1486,6 +1840,7 @@ def run(ctx):
     finally:
         ctx.violate = plain_violate
         _confirm_single_runs(ctx, first)
+        _one_of_each_first(ctx)
     ctx.extra['table_entries'] = len(snap['commands'])
     ctx.extra['api_methods'] = len(snap['api'])
     ctx.extra['observations'] = dict((k, v) for k, v in ctx.dist.items() if str(k).startswith('obs:'))
@@ -1507,6 +1862,10 @@ def search(ctx):
             ctx.violate('C20:exit:model', 'exit status / message differs from the except clauses', c,
                         expected=d['model'], observed=d['code'])
             d['explained_by'] = 'exit'
+        elif d['what'] in ('handler', 'literal') and c.get('argv'):
+            ctx.violate('C20:handler:model', 'a handler differs from its model (int() conversions / optional API results)',
+                        c, expected=d['model'], observed=d['code'])
+            d['explained_by'] = 'handler'
         elif d['what'] == 'lookup' and c.get('argv'):
             ctx.violate('C20:lookup:model', 'command lookup differs from first-matching-prefix', c,
                         expected=d['model'], observed=d['code'])
@@ -1583,7 +1942,7 @@ def replay(ctx, v):
         un = set(u[2] for u in python_unresolved(snap))
         c2.driver('drv_c20')
         ctx._drivers = c2._drivers
-        judge_entry_run(c2, name, names.index(name), argv, True, api(vals) if api else None, profile, faults or None, un, kind)
+        judge_entry_run(c2, name, names.index(name), argv, api(vals) if api else None, profile, faults or None, un, kind)
         for x in c2.violations:
             print('  ' + x['what'])
         return any(x['signature'] == sig for x in c2.violations)
@@ -1608,6 +1967,8 @@ def replay(ctx, v):
             return obs_now[sig]()
         if sig == 'C20:option:not-launched':
             return o.launch is None
+        if sig.startswith('C20:python-error:option '):
+            return o.exit[0] == 'raise' and o.exit[1] == sig.split(':')[-1]
         if sig.startswith('C20:option:-') or sig in ('C20:option:session', 'C20:option:target-on-wire'):
             L = o.launch or {}
             got = {'t': L.get('target'), 'I': L.get('iface'), 'o': dict(L.get('opts', [])), 'r': L.get('routing'),
